@@ -211,7 +211,7 @@ class Renderer:
             body0 = body.lstrip(" \t\n\r")
             if first[0] == "c" and len(first[1]) == 1 and first[1][0][0] == "n" \
                     and body0.startswith(".") and first[1][0][1] not in RESERVED \
-                    and not first[1][0][1].startswith("_") and self.p(0.5):
+                    and not first[1][0][1].startswith("_") and first[1][0][1][:1].isascii() and self.p(0.5):
                 return body0[1:]
             return body0
         return root + body
